@@ -29,11 +29,25 @@ func ZZC20Check(text string) {
 	path := zzvrt.TempFile("script.num", text)
 	out := zzvrt.CLI(func() { check(path) })
 	res := analysis.CheckSource(text)
-	errs := res.GetErrorsCount()
+	// counted from the diagnostics themselves (not through the helper the command uses)
+	errs := 0
+	for _, d := range res.Diagnostics {
+		if d.Kind.Severity() == analysis.ErrorSeverity {
+			errs++
+		}
+	}
+	zzvrt.Assert(res.GetErrorsCount() == errs, "C20:library-error-count-is-the-number-of-error-diagnostics")
 	zzvrt.Note("errors=" + zzItoa(errs) + " diagnostics=" + zzItoa(len(res.Diagnostics)))
 	zzvrt.Assert(out.Exited == (errs != 0), "C20:check-exits-nonzero-exactly-on-errors")
 	if out.Exited {
 		zzvrt.Assert(out.Code == 1, "C20:check-exit-status")
+	}
+	if errs == 1 {
+		zzvrt.Assert(strings.Contains(out.Stdout, "Found 1 error"), "C20:check-prints-the-number-of-errors")
+	} else if errs > 1 {
+		zzvrt.Assert(strings.Contains(out.Stdout, "Found "+zzItoa(errs)+" errors"), "C20:check-prints-the-number-of-errors")
+	} else {
+		zzvrt.Assert(strings.Contains(out.Stdout, "No errors found"), "C20:check-prints-the-number-of-errors")
 	}
 	for _, d := range res.Diagnostics {
 		loc := path + ":" + zzItoa(d.Range.Start.Line) + ":" + zzItoa(d.Range.Start.Character) + " - "
@@ -45,6 +59,21 @@ func ZZC20Check(text string) {
 
 // ZZC20Run: the same inputs through each channel print the library's result.
 // spec: "name=num|mon:ASSET|text:VALUE;..." for variables; accounts: comma separated names with symbolic USD balances.
+type zzNoScript struct {
+	Variables map[string]string            `json:"variables"`
+	Meta      interpreter.AccountsMetadata `json:"metadata"`
+	Balances  interpreter.Balances         `json:"balances"`
+}
+
+type zzVarsOnly struct {
+	Variables map[string]string `json:"variables"`
+}
+
+type zzScriptVars struct {
+	Script    string            `json:"script"`
+	Variables map[string]string `json:"variables"`
+}
+
 func ZZC20Run(channel, script, varspec, accounts, metaSpec, flag string) {
 	vars := map[string]string{}
 	if varspec != "" {
@@ -112,6 +141,24 @@ func ZZC20Run(channel, script, varspec, accounts, metaSpec, flag string) {
 		runVariablesOpt = zzvrt.JSONFile("vars.json", vars)
 		runBalancesOpt = zzvrt.JSONFile("balances.json", mkBalances())
 		runMetaOpt = zzvrt.JSONFile("meta.json", meta)
+	// mixed channels: each document carries only part of the inputs, the command merges them
+	case "path+stdin":
+		path = zzvrt.TempFile("script.num", script)
+		runStdinFlag = true
+		zzvrt.SetStdinJSON(zzNoScript{Variables: vars, Meta: meta, Balances: mkBalances()})
+	case "files+stdin-vars":
+		path = zzvrt.TempFile("script.num", script)
+		runBalancesOpt = zzvrt.JSONFile("balances.json", mkBalances())
+		runMetaOpt = zzvrt.JSONFile("meta.json", meta)
+		runStdinFlag = true
+		zzvrt.SetStdinJSON(zzVarsOnly{Variables: vars})
+	case "raw+files":
+		runRawOpt = zzvrt.JSONString(zzScriptVars{Script: script, Variables: vars})
+		runBalancesOpt = zzvrt.JSONFile("balances.json", mkBalances())
+		runMetaOpt = zzvrt.JSONFile("meta.json", meta)
+	case "path+raw":
+		path = zzvrt.TempFile("script.num", script)
+		runRawOpt = zzvrt.JSONString(zzNoScript{Variables: vars, Meta: meta, Balances: mkBalances()})
 	}
 	out := zzvrt.CLI(func() { run(path) })
 
